@@ -113,6 +113,12 @@ type endpoint struct {
 	// IPv4 when IPv6 endpoint is bound or connected to an IPv4 mapped
 	// address).
 	effectiveNetProtos []tcpip.NetworkProtocolNumber
+
+	// boundAddr and boundNetProtos are the address and the network protocols
+	// the port reservation was made with: what Close has to release. Connect
+	// changes id.LocalAddress and effectiveNetProtos but not the reservation.
+	boundAddr      tcpip.Address
+	boundNetProtos []tcpip.NetworkProtocolNumber
 }
 
 // 多播的成员关系，包括多播地址和网卡ID
@@ -180,7 +186,7 @@ func (e *endpoint) Close() {
 		// 释放在协议栈中注册的UDP端
 		e.stack.UnregisterTransportEndpoint(e.regNICID, e.effectiveNetProtos, ProtocolNumber, e.id)
 		// 释放端口占用
-		e.stack.ReleasePort(e.effectiveNetProtos, ProtocolNumber, e.id.LocalAddress, e.id.LocalPort)
+		e.stack.ReleasePort(e.boundNetProtos, ProtocolNumber, e.boundAddr, e.id.LocalPort)
 	}
 
 	for _, mem := range e.multicastMemberships {
@@ -727,6 +733,10 @@ func (e *endpoint) Connect(addr tcpip.FullAddress) *tcpip.Error {
 	// 如果源端口不为0，则尝试在传输层端中删除老的UDP端
 	if e.id.LocalPort != 0 {
 		e.stack.UnregisterTransportEndpoint(e.regNICID, e.effectiveNetProtos, ProtocolNumber, e.id)
+	} else {
+		// The port was reserved by this call.
+		e.boundAddr = id.LocalAddress
+		e.boundNetProtos = netProtos
 	}
 
 	// 赋值UDP端的属性
@@ -869,6 +879,8 @@ func (e *endpoint) bindLocked(addr tcpip.FullAddress, commit func() *tcpip.Error
 	e.id = id
 	e.regNICID = addr.NIC
 	e.effectiveNetProtos = netProtos
+	e.boundAddr = id.LocalAddress
+	e.boundNetProtos = netProtos
 
 	// Mark endpoint as bound.
 	// 标记状态为已绑定
